@@ -14,7 +14,8 @@ ID = "C05"
 LEVEL = "exploration"
 RULE = ("inputs = every concrete Sid from the full product of per-key value sets (2-3 closed-vocabulary members incl. all "
         "mapped values, digit boundary instances, names containing the file-name separator / a dot / a dash / a name "
-        "spelled like a mapped folder) for every configured type, plus untyped Sids; x every path configuration and the "
+        "spelled like a mapped folder) for every configured type, plus every member of every closed vocabulary once at its "
+        "position (alias names as plain values included), plus untyped Sids; x every path configuration and the "
         "default; x two import orders (first-touched configuration). distinct = distinct (sid, import order); "
         "non-trivial = the type has a path template in the configuration.")
 ASSUMPTIONS = ["empty field values are outside the alphabet", "reference rendering = raw path template + inverse value "
@@ -40,6 +41,16 @@ def gen(ref, tier, extra_names):
                             vs[i].append(nm)
             for combo in itertools.product(*vs):
                 yield typ, "/".join(combo)
+            # every member of every closed vocabulary (extension names that extend another one, alias names used as plain
+            # values, every mapped value) once at its position
+            base = [v[0] if v else "x" for v in vs]
+            pool = ref.literals() + ref.digit_instances()
+            for i, (k, p) in enumerate(ref.templates[typ]):
+                if p is None:
+                    continue
+                for v in ref.accepted(typ, i, pool):
+                    if v not in ("*", ">") and v != base[i]:
+                        yield typ, "/".join(base[:i] + [v] + base[i + 1:])
     finally:
         universe.NAMES[:] = saved
 
@@ -214,7 +225,11 @@ def run_shard(sh):
     digest = zlib.crc32("\n".join(sorted("|".join(t) for t in table)).encode())
     rec.extra = {"first": sh["first"], "index": sh["index"], "digest": digest,
                  "table": [(c, zlib.crc32(r.encode()), zlib.crc32(u.encode()), r if len(table) < 200 else "") for c, r, u in table]}
-    return rec.result()
+    res = rec.result()
+    for lst in res["violations"].values():
+        for v in lst:
+            v["env"] = {"env": {"VERIF_FIRST_CONFIG": sh["first"]}}     # one confirmation process per first-loaded configuration
+    return res
 
 
 def post(m, results, tier, seed):
